@@ -24,7 +24,7 @@ from qv.rngx import Policy, QuantileRNG
 from qv.runner import Acc, Report, pmap
 
 PID = "C12"
-POLICY = dict(uniform_q=(0.3, 0.8), angular_q=(0.1, 0.6), normal_z=(-1.0, 1.0), product_limit=0, branch_calls=1)
+POLICY = dict(uniform_q=(0.3, 0.8), angular_q=(0.1, 0.6), normal_z=(-1.0, 0.6), product_limit=0, branch_calls=1)
 
 
 def specs(tier):
